@@ -307,6 +307,13 @@ func NewReader(name string, reliable bool, heldEvery int) *Reader {
 	return &Reader{Name: name, Reliable: reliable, AnnSSRC: map[int]uint32{}, heldEvery: heldEvery, lastSeen: map[[2]int]uint64{}}
 }
 
+// AnnounceSSRC records the SSRC a SETUP response announced for a media.
+func (rd *Reader) AnnounceSSRC(media int, ssrc uint32) {
+	rd.mu.Lock()
+	rd.AnnSSRC[media] = ssrc
+	rd.mu.Unlock()
+}
+
 // OnPacket is called from the library's packet callback.
 func (rd *Reader) OnPacket(media int, pt uint8, pkt *rtp.Packet) {
 	c := Tick()
